@@ -105,6 +105,14 @@ func (r *recorder) authority(c *Chain, msg sdk.Msg) {
 	r.pending = append(r.pending, string(bz))
 }
 
+func (r *recorder) doomed(c *Chain, msg sdk.Msg) {
+	bz, err := c.App.AppCodec().MarshalInterfaceJSON(msg)
+	if err != nil {
+		return
+	}
+	r.pending = append(r.pending, DoomedPrefix+string(bz))
+}
+
 // Recording is a parsed .rec file.
 type Recording struct {
 	Header RecHeader
